@@ -495,6 +495,12 @@ func genC12(r *rand.Rand, run int, _ string) *Scenario {
 		}
 	}
 
+	// memory soft limits: never exceeded (must not trigger anything) or always exceeded
+	if chance(r, 0.25) {
+		be.Cfg.HeapLimit = pick(r, uint64(0), 1, math.MaxUint64, math.MaxUint64)
+		be.Cfg.SysLimit = pick(r, uint64(0), 1, math.MaxUint64, math.MaxUint64)
+	}
+
 	n := 1 + r.IntN(8)
 	if limit > 0 {
 		n = int(float64(limit) * pick(r, 0.5, 1, 1.05, 1.5, 2, 4))
@@ -703,12 +709,28 @@ func (r *beRun) modeEvict() {
 
 		class := fmt.Sprintf("%s strategy=%d", r.sc.Backend, cfg.Strategy)
 
+		for _, l := range []uint64{cfg.HeapLimit, cfg.SysLimit} {
+			if l != 0 && l != 1 && l != math.MaxUint64 {
+				out.Internal = "memory soft limit depends on the real allocator"
+
+				return
+			}
+		}
+
+		memBreach := cfg.HeapLimit == 1 || cfg.SysLimit == 1
+		trigger := "EvictionNeeded returned true"
+
+		if memBreach {
+			trigger = "a memory soft limit is exceeded"
+			class += " mem-limit"
+		}
+
 		switch {
-		case !countBreach && !needTrue:
+		case !countBreach && !needTrue && !memBreach:
 			out.probe("cycle_without_trigger")
 
 			if len(removed) > 0 {
-				out.violate("C12.R1", class+" evicted-without-trigger", "cleanup cycle removed %d of %d entries (e.g. %q) although no soft limit was exceeded (CountSoftLimit=%d) and EvictionNeeded did not return true", len(removed), n, removed[0], cfg.CountSoftLimit)
+				out.violate("C12.R1", class+" evicted-without-trigger", "cleanup cycle removed %d of %d entries (e.g. %q) although no soft limit was exceeded (CountSoftLimit=%d, HeapInUseSoftLimit=%d, SysMemSoftLimit=%d) and EvictionNeeded did not return true", len(removed), n, removed[0], cfg.CountSoftLimit, cfg.HeapLimit, cfg.SysLimit)
 			}
 		case countBreach:
 			out.probe("cycle_count_breach")
@@ -718,11 +740,15 @@ func (r *beRun) modeEvict() {
 				out.violate("C12.R2", class+" count-breach-amount", "count breach: %d entries, CountSoftLimit=%d, EvictFraction=%v: %d entries survive, expected %.2f (within one entry)", n, cfg.CountSoftLimit, frac, len(kept), target)
 			}
 		default:
-			out.probe("cycle_eviction_needed")
+			if memBreach {
+				out.probe("cycle_memory_limit_breach")
+			} else {
+				out.probe("cycle_eviction_needed")
+			}
 
 			want := math.Floor(float64(n) * frac)
 			if math.Abs(float64(len(removed))-want) > 1.000001 {
-				out.violate("C12.R2", class+" fraction-amount", "EvictionNeeded returned true: %d entries, EvictFraction=%v: %d removed, expected %.0f (+-1)", n, frac, len(removed), want)
+				out.violate("C12.R2", class+" fraction-amount", trigger+": %d entries, EvictFraction=%v: %d removed, expected %.0f (+-1)", n, frac, len(removed), want)
 			}
 		}
 
@@ -771,7 +797,7 @@ func (r *beRun) modeEvict() {
 			out.probe("order_checked")
 		}
 
-		if cfg.Stats && (countBreach || needTrue) {
+		if cfg.Stats && (countBreach || needTrue || memBreach) {
 			if got := r.evictMetric() - evictMetricBefore; int(got) != len(removed) {
 				out.violate("C12.R4", class+" evict-metric", "cache_evict grew by %v in a cycle that removed %d entries", got, len(removed))
 			}
